@@ -106,7 +106,8 @@ def second_pass_menu(KR, KQ, nrefs):
          "tail-": (0, True, [1, 2], [KQ, KQ - 1]),
          "fragment-tail+": (0, False, [KR - 1, KR], [-2, -1]),     # the fragment's own last two labels (whatever numbers its shift gives)
          "crossing-shared+": (0, False, [1, 2], [4, 5]),           # crosses a first-pass row (2,3)(3,4) and shares labels with it
-         "overlap-fill+": (0, False, [2, 3, 4, 5], [2, 3, 4, 5])}  # pairs label 3 that 'start-gap+' left unpaired: interior merge point
+         "overlap-fill+": (0, False, [2, 3, 4, 5], [2, 3, 4, 5]),  # pairs label 3 that 'start-gap+' left unpaired: interior merge point
+         "two-segments-tail+": (0, False, [[4, 5], [6]], [[4, 5], [6]])}   # a second-pass record chained from two segments
     if nrefs > 1:
         m["ref2+"] = (1, False, [KR - 1, KR], [KQ - 1, KQ])
     return m
@@ -258,7 +259,7 @@ MULTIPASS_BOUNDS = ("1-2 queries of 6 labels and one query of 10 labels (both fl
 def multipass_configs(tier):
     cfgs = [dict(KR=6, KQ=6, nq=1, nrefs=1, first=["none", "start+", "end-", "end+", "middle-skip+"],
                  second=["none", "continue+", "overlap+", "other-strand", "far-crossing+", "head+", "tail-", "fragment-tail+"]),
-            dict(KR=6, KQ=6, nq=1, nrefs=1, first=["start-gap+", "two-segments+"], second=["none", "overlap-fill+", "overlap+", "continue+"]),
+            dict(KR=6, KQ=6, nq=1, nrefs=1, first=["start-gap+", "two-segments+"], second=["none", "overlap-fill+", "overlap+", "continue+", "two-segments-tail+"]),
             dict(KR=6, KQ=6, nq=1, nrefs=2, first=["start+", "end-", "end+"], second=["none", "continue+", "ref2+"])]
     cfgs.append(dict(KR=6, KQ=6, nq=2, nrefs=1, first=["none", "start+", "end-"], second=["none", "continue+", "overlap+"]))
     # long molecule: one or two fragments per query, crossing second-pass records
